@@ -9,7 +9,7 @@ BuildEv == /\ More /\ Ev.op = "build"
            /\ Chk("D", DistinctSorted(Ev.s1, Ev.s2), Ev.part.D)
            /\ Chk("v1 = members of sample 1", Member(Ev.part.D, Ev.s1), Ev.part.v1)
            /\ Chk("v2 = members of sample 2", Member(Ev.part.D, Ev.s2), Ev.part.v2)
-           /\ ChkB("adjacency is a k-nearest relation incl. self", KnnValid(Ev.part.D, ToSets(Ev.part.nb), ncfg.k), Ev.part.nb)
+           /\ ChkB("adjacency is a k-nearest relation incl. self", KnnValid(Ev.part.D, ToSets(Ev.part.nb), Ev.k), Ev.part.nb)
            /\ DOK(NnpsDistance(Ev.part.v1, Ev.part.v2, ToSets(Ev.part.nb)), Ev.d)
            /\ ChkB("symmetric", Close(Ev.d, Ev.dswap), <<Ev.d, Ev.dswap>>)
            /\ ChkB("in [0,1]", NSign(Ev.d) \in {0, 1} /\ ~DefGt(Ev.d, 1), Ev.d)
